@@ -66,7 +66,7 @@ func c17Sets(format string) []c17Set {
 	}
 	return []c17Set{
 		mk([]string{"alpha.bin", "sub/beta.bin", "sub/deep/gamma.bin"}, []int{100, 33, 700}, 8, 3, 1),
-		mk([]string{"x.dat", "y.dat", "d/z.dat", "w.dat"}, []int{1, 17000, 64, 300}, 64, 5, 2),
+		mk([]string{"x.dat", "y.dat", "d/z.dat", "w.dat"}, []int{1, 17000, 64, 300}, 100, 5, 2),
 		mk([]string{"only.one"}, []int{70000}, 2000, 2, 3),
 	}
 }
@@ -125,6 +125,16 @@ func runC17(args []string) error {
 			switch cfg.Spell {
 			case "abs":
 				return abs
+			case "absdot":
+				d, b := filepath.Split(abs)
+				return d + "./" + b
+			case "absdblsep":
+				d, b := filepath.Split(abs)
+				return d + "/" + b
+			case "absdotdot":
+				d, b := filepath.Split(abs)
+				dd := strings.TrimSuffix(d, "/")
+				return dd + "/../" + filepath.Base(dd) + "/" + b
 			case "dotslash":
 				return "./" + r
 			case "dblsep":
